@@ -1,6 +1,6 @@
-\* every fact combination with every possible single failing read: 38,340 initial states, 76,680 distinct states
+\* every fact combination with every possible single failing read (38,340), each additionally with its mate in the same batch (before / after) where the device kind changes the decision: 44,388 initial states, 88,776 distinct states
 SPECIFICATION Spec
 CONSTANTS FailScope = "all"
-INVARIANTS TypeOK C36_SystemBypass C36_DisbandTerminal C36_Precedence C36_ErrorsOnlyWhenConsulted
+INVARIANTS TypeOK C36_SystemBypass C36_DisbandTerminal C36_Precedence C36_ErrorsOnlyWhenConsulted C36_CompanyIrrelevant
 PROPERTIES C36_PathsAgree
 CHECK_DEADLOCK FALSE
